@@ -285,6 +285,125 @@ func runC05(c *h.Ctx) {
 	})
 
 	// NewTypedNode from children
+	// ---- maps stored by hash that grow far beyond their loaded size through the setters: every key, old and new, must
+	// stay reachable and must be marshalled
+	c.Run("hash-growth", c.N(600, 15000), func(cs *h.Case) {
+		strKeys := cs.R.Bool()
+		n := []int{0, 3, 16, 17, 18, 24, 33, 40}[cs.R.Intn(8)]
+		adds := 1 + cs.R.Intn(3*n+20)
+		kt := byte(tref.I32)
+		if strKeys {
+			kt = tref.STRING
+		}
+		mk := func(i int) *tref.Val {
+			if strKeys {
+				return tref.Str(fmt.Sprintf("key-%d", i))
+			}
+			return tref.Int32(int32(i * 7))
+		}
+		m := &tref.Val{T: tref.MAP, KT: kt, ET: tref.I64}
+		for i := 0; i < n; i++ {
+			m.K = append(m.K, mk(i))
+			m.L = append(m.L, tref.Int64(int64(1000+i)))
+		}
+		root := tref.Struct(tref.Field{ID: 1, V: m})
+		b := tref.Encode(root)
+		opts := &generic.Options{StoreChildrenByHash: cs.R.Chance(80), StoreChildrenById: cs.R.Bool()}
+		tree := generic.PathNode{Node: generic.NewNode(thrift.STRUCT, b)}
+		if err := tree.Load(true, opts); err != nil {
+			cs.Viol("dom:hash-growth:load", "err", err)
+			return
+		}
+		mp := tree.Field(1, opts)
+		if mp == nil {
+			cs.Viol("dom:hash-growth:field-missing")
+			return
+		}
+		want := map[string]int64{}
+		keyStr := func(k *tref.Val) string {
+			if strKeys {
+				return string(k.S)
+			}
+			return fmt.Sprint(k.I)
+		}
+		for i, k := range m.K {
+			want[keyStr(k)] = m.L[i].I
+		}
+		cs.Info("setup", fmt.Sprintf("strKeys=%v loaded=%d adds=%d opts=%+v", strKeys, n, adds, *opts))
+		for a := 0; a < adds; a++ {
+			i := n + a
+			if cs.R.Chance(20) && n+a > 0 {
+				i = cs.R.Intn(n + a) // overwrite an existing key (old or new)
+			}
+			k := mk(i)
+			val := int64(5000 + a)
+			var err error
+			if strKeys {
+				_, err = mp.SetByStr(string(k.S), generic.NewNodeInt64(val), opts)
+			} else {
+				_, err = mp.SetByInt(int(k.I), generic.NewNodeInt64(val), opts)
+			}
+			if err != nil {
+				cs.Viol("dom:hash-growth:setter-error", "err", err, "step", a)
+				return
+			}
+			want[keyStr(k)] = val
+		}
+		// lookups
+		for ks, wv := range want {
+			var x *generic.PathNode
+			if strKeys {
+				x = mp.GetByStr(ks, opts)
+			} else {
+				var ki int
+				fmt.Sscan(ks, &ki)
+				x = mp.GetByInt(ki, opts)
+			}
+			if x == nil {
+				cs.Viol("dom:hash-growth:key-lost", "key", ks, "loaded", n, "adds", adds)
+				return
+			}
+			if g, err := x.Node.Int(); err != nil || int64(g) != wv {
+				cs.Viol("dom:hash-growth:stale-value", "key", ks, "got", g, "want", wv)
+				return
+			}
+		}
+		out, err := tree.Marshal(opts)
+		if err != nil {
+			cs.Viol("dom:hash-growth:marshal", "err", err)
+			return
+		}
+		dec, derr := tref.Decode(out, tref.STRUCT)
+		if derr != nil || dec.FieldByID(1) == nil || dec.FieldByID(1).T != tref.MAP {
+			cs.Viol("dom:hash-growth:malformed", "decode-error", derr, "out", out)
+			return
+		}
+		gm := dec.FieldByID(1)
+		got := map[string]int64{}
+		for i, k := range gm.K {
+			if _, dup := got[keyStr(k)]; dup {
+				cs.Viol("dom:hash-growth:duplicate-key", "key", keyStr(k))
+				return
+			}
+			got[keyStr(k)] = gm.L[i].I
+		}
+		if len(got) != len(want) {
+			cs.Viol("dom:hash-growth:marshal-entries", "got", len(got), "want", len(want), "loaded", n, "adds", adds)
+			return
+		}
+		for k, v := range want {
+			if got[k] != v {
+				cs.Viol("dom:hash-growth:marshal-value", "key", k, "got", got[k], "want", v)
+				return
+			}
+		}
+		cs.Cover("hash_growth_ok")
+		if adds > n && n > 16 {
+			cs.Cover("hash_growth_more_new_keys_than_loaded")
+		}
+		cs.Distinct(fmt.Sprintf("hg-%v-%d-%d", strKeys, n, adds/4))
+	})
+
 	c.Run("typednode", c.N(2000, 40000), func(cs *h.Case) {
 		sc := gen.GenSchema(cs.R, gen.Cfg{MaxDepth: 2, MaxFields: 5, StructKeys: false, BigIDs: true})
 		v := gen.GenVal(cs.R, structType(sc.Root), gen.ValCfg{MaxElems: 4, NonFinite: true}, 0)
